@@ -162,7 +162,7 @@ pub fn property() -> Property {
             Box::new(Sub {
                 name: "interleaver-random",
                 rule: "random shapes up to 64 x 64 (degenerate C = 1 / R = 1 weighted up), both directions, random label salt; same oracle",
-                cases: |t| t.pick(5_000, 200_000),
+                cases: |t| t.pick(50_000, 1_000_000),
                 strategy: il_strategy,
                 check: check_il,
                 health: &[],
@@ -170,7 +170,7 @@ pub fn property() -> Property {
             Box::new(Sub {
                 name: "puncturer",
                 rule: "boolean patterns of length 1..=8 with at least one true (by construction), block size 1..=6: puncture keeps exactly the true blocks in order; depuncture puts them back with neutral values (i64 0, f64 exactly +0.0) in the removed blocks; rate = pattern length / kept blocks; lengths not divisible by the pattern length (puncture) or by the number of kept blocks (depuncture) give Err, never a panic or a shortened vector; non-trivial = something removed",
-                cases: |t| t.pick(50_000, 3_000_000),
+                cases: |t| t.pick(1_000_000, 30_000_000),
                 strategy: pu_strategy,
                 check: check_pu,
                 health: &[("indivisible-puncture", 0.20), ("something-removed", 0.50)],
